@@ -36,6 +36,23 @@ V = {'1': uuid.UUID(int=1), '2': uuid.UUID(int=2), '-': None}
 STATES = {'up': True, 'down': False, 'unknown': None}
 QUICK_LETTERS = ['111', '112', '121', '1-1', '1-2', '1--', '222', '211', '111+u2', 's']
 BUDGETS = [0.1, 0.5, 0.7]
+# a poll that fails: 'x' the node closes the connection while both reads are outstanding (ConnectionShutdown), 'e' the socket
+# fails (defunct(OSError)), 'r' the node answers the system.peers read with a server error
+FAULTS = {'x': 'closed', 'e': 'socket error', 'r': 'error response'}
+CCT_DEFAULT = 2.0        # Cluster.control_connection_timeout: the per-poll timeout (an unanswered poll costs min(this, rest of the budget))
+CCT_SHORT = 0.25         # shorter than the budgets: an unanswered poll is followed by further polls
+
+
+class _Lose(object):
+    """Queued in the server's outbox like a response: when its turn comes the reactor sees the connection fail."""
+    def __init__(self, conn, how):
+        self.conn, self.how = conn, how
+
+    def feed(self, data):
+        if self.how == 'x':
+            self.conn.close()
+        else:
+            self.conn.defunct(OSError(104, 'Connection reset by peer'))
 
 
 def all_letters():
@@ -90,10 +107,14 @@ class Script(object):
             self.cur = self.seq[min(self.k, len(self.seq) - 1)]
             self.polls.append(self.cur)
             self.k += 1
-        return self.in_poll is not None and self.cur == 's'
+            if self.cur in ('x', 'e'):
+                self.server.outbox.append((_Lose(conn, self.cur), b''))
+        return self.in_poll is not None and self.cur in ('s', 'x', 'e')
 
     def on_request(self, server, conn, stream, req):
         kind = self.classify(req)
+        if self.active and kind == 'peers' and self.cur == 'r':
+            return wire.OP_ERROR, wire.error(wire.ERR_SERVER, 'java.lang.RuntimeException: scripted failure of the system.peers read')
         if kind == 'ddl':
             return wire.OP_RESULT, wire.result_schema_change('CREATED', 'TABLE', 'ks', 't', req['version'])
         if kind == 'schema':
@@ -103,7 +124,7 @@ class Script(object):
     def peer_rows(self, conn):
         me = self.server.host_of(conn)
         rows = []
-        if self.in_poll == 'peers':
+        if self.in_poll == 'peers' and self.cur not in FAULTS:
             _, pa, pb, unk = parse_letter(self.cur)
             for i, ver in zip(self.others, (pa, pb)):
                 r = self.server.hosts[i - 1].peer_row()
@@ -119,12 +140,12 @@ class Script(object):
     def local_row(self, conn):
         me = self.server.host_of(conn)
         r = me.local_row()
-        if self.in_poll == 'local':
+        if self.in_poll == 'local' and self.cur not in FAULTS:
             r['schema_version'] = V[parse_letter(self.cur)[0]]
         return r
 
 
-def play(mode, seq, states, budget, poll_host, meta):
+def play(mode, seq, states, budget, poll_host, meta, cct=CCT_DEFAULT):
     from cassandra.cluster import ExecutionProfile, EXEC_PROFILE_DEFAULT, ControlConnection
     from cassandra.query import SimpleStatement
     ControlConnection._time = vworld._VTime      # the class keeps its own reference to the time module ("for testing purposes")
@@ -139,7 +160,7 @@ def play(mode, seq, states, budget, poll_host, meta):
         order = [addr(poll_host)] + [addr(i) for i in (1, 2, 3) if i != poll_host]
         lbp = reqworld.FixedOrderPolicy(order=order)
         cluster = w.make_cluster(execution_profiles={EXEC_PROFILE_DEFAULT: ExecutionProfile(load_balancing_policy=lbp, request_timeout=30.0)},
-                                 max_schema_agreement_wait=budget, schema_metadata_enabled=meta)
+                                 max_schema_agreement_wait=budget, schema_metadata_enabled=meta, control_connection_timeout=cct)
         session = cluster.connect(wait_for_all_pools=True)
         w.settle()
         by = dict((h.address, h) for h in cluster.metadata.all_hosts())
@@ -148,13 +169,21 @@ def play(mode, seq, states, budget, poll_host, meta):
             by[addr(i)].is_up = STATES[s]
         sc.active = True
         t0 = w.clock.now
-        out = {'raised': None, 'completed': None}
+        out = {'raised': None, 'completed': None, 'polls_at_completion': None}
         try:
             if mode == 'direct':
                 conn = None if poll_host == 1 else session._pools[by[addr(poll_host)]]._connection
                 out['result'] = cluster.control_connection.wait_for_schema_agreement(connection=conn)
             else:
                 f = session.execute_async(SimpleStatement('CREATE TABLE ks.t (k int PRIMARY KEY)'))
+
+                def done(_):
+                    # the polls that can have gone into the request's verdict (a schema refresh the driver re-submits
+                    # after a failed wait polls again, later)
+                    if out['polls_at_completion'] is None:
+                        out['polls_at_completion'] = len(sc.polls)
+                        out['elapsed_at_completion'] = w.clock.now - t0
+                f.add_callbacks(done, done)
                 w.pump()
                 out['completed'] = f._event.is_set()
                 out['error'] = repr(f._final_exception) if f._final_exception is not None else None
@@ -162,7 +191,12 @@ def play(mode, seq, states, budget, poll_host, meta):
         except Exception as e:        # noqa
             out['raised'] = '%s: %s' % (type(e).__name__, e)
         out['elapsed'] = w.clock.now - t0
-        out['polls'] = list(sc.polls)
+        out['all_polls'] = list(sc.polls)
+        if out['polls_at_completion'] is not None:
+            out['elapsed'] = out.pop('elapsed_at_completion')
+            out['polls'] = out['all_polls'][:out['polls_at_completion']]
+        else:
+            out['polls'] = list(sc.polls)
         sc.active = False
         cluster.shutdown()
     return out
@@ -171,14 +205,17 @@ def play(mode, seq, states, budget, poll_host, meta):
 def run_chunk(cases):
     part = Part()
     for case in cases:
-        mode, seq, states, budget, poll_host, meta = case
+        mode, seq, states, budget, poll_host, meta, cct = case
         part.count('evaluations')
-        got = play(mode, seq, states, budget, poll_host, meta)
-        data = {'mode': mode, 'seq': list(seq), 'states': list(states), 'budget': budget, 'poll_host': poll_host, 'meta': meta}
+        got = play(mode, seq, states, budget, poll_host, meta, cct)
+        data = {'mode': mode, 'seq': list(seq), 'states': list(states), 'budget': budget, 'poll_host': poll_host, 'meta': meta, 'cct': cct}
         verdicts = []
         for letter in got['polls']:
             if letter == 's':
                 verdicts.append(None)
+                continue
+            if letter in FAULTS:
+                verdicts.append(schemaagree.FAULT)
                 continue
             l, pa, pb, unk = parse_letter(letter)
             peers = [(V[pa], True, STATES[states[0]]), (V[pb], True, STATES[states[1]])]
@@ -186,13 +223,23 @@ def run_chunk(cases):
                 peers.append((V[unk], False, None))
             verdicts.append(schemaagree.agreed(V[l], peers))
         part.count('polls_served', len(verdicts))
-        part.outcome((mode, meta, got.get('result'), len(verdicts), got['raised'] is not None))
+        faulted = bool(verdicts) and verdicts[-1] == schemaagree.FAULT
+        if faulted:
+            part.count('waits_ended_by_a_failed_poll')
+        if None in verdicts[:-1]:
+            part.count('waits_polling_on_after_an_unanswered_poll')
+        part.outcome((mode, meta, got.get('result'), len(verdicts), got['raised'] is not None, faulted))
         if len(set(v for v in verdicts if v is not None)) > 1 or None in verdicts or 'down' in states or 'unknown' in states:
             part.mark_nontrivial(repr(case))
         part.sample(dict(data, observed=got, poll_verdicts=verdicts), limit=2)
-        ctxt = '[%s, script %r (last repeats), peer states %r, budget %.1f s, polling via node %d, schema metadata %s; polls made %r -> agreed? %r]' % (
-            mode, list(seq), list(states), budget, poll_host, 'on' if meta else 'off', got['polls'], verdicts)
+        ctxt = '[%s, script %r (last repeats), peer states %r, budget %.1f s, poll timeout %.2f s, polling via node %d, schema metadata %s; polls made %r -> agreed? %r]' % (
+            mode, list(seq), list(states), budget, cct, poll_host, 'on' if meta else 'off', got['polls'], verdicts)
         where = '%s/%s' % (mode, 'meta-on' if meta else 'meta-off') if mode == 'ddl' else mode
+        if got['raised'] and mode == 'direct' and faulted and budget > 0:
+            # the wait ended by raising out of the failed poll: it reported nothing
+            for clause, text in schemaagree.judge(None, verdicts, budget, got['elapsed']):
+                part.violation('C43/%s/%s' % (where, clause), 'wait_for_schema_agreement() raised %s: %s %s' % (got['raised'], text, ctxt), data)
+            continue
         if got['raised']:
             part.violation('C43/%s/raised' % where, '%s %s' % (got['raised'], ctxt), data)
             continue
@@ -205,10 +252,32 @@ def run_chunk(cases):
                 continue
         if budget <= 0:
             continue
+        if mode == 'ddl' and faulted and got['result'] is not True and got['result'] is not False:
+            part.violation('C43/%s/verdict-not-bool' % where, 'is_schema_agreed: is %r after a wait that ended in a failed poll %s' % (got['result'], ctxt), data)
+            continue
         for clause, text in schemaagree.judge(got['result'], verdicts, budget, got['elapsed']):
             what = 'is_schema_agreed' if mode == 'ddl' else 'wait_for_schema_agreement()'
             part.violation('C43/%s/%s' % (where, clause), '%s: %s %s' % (what, text, ctxt), data)
     return part
+
+
+def fault_scripts(prefix_letters, maxlen):
+    """answered / unanswered polls, then a poll that fails"""
+    return [pre + (f,) for n in range(maxlen + 1) for pre in itertools.product(prefix_letters, repeat=n) for f in sorted(FAULTS)]
+
+
+def fault_cases(seqs, st, ddl_hosts):
+    out = []
+    for seq in seqs:
+        # an unanswered poll uses up min(poll timeout, rest of the budget): only a short poll timeout lets the script go on after it
+        b, cct = (0.7, CCT_SHORT) if 's' in seq else (0.5, CCT_DEFAULT)
+        for s in st:
+            for ph in (1, 2):
+                out.append(('direct', seq, s, b, ph, False, cct))
+            for meta in (False, True):
+                for ph in ddl_hosts:
+                    out.append(('ddl', seq, s, b, ph, meta, cct))
+    return out
 
 
 def cases(ctx):
@@ -235,6 +304,17 @@ def cases(ctx):
         for meta in (False, True):
             out.append(('ddl', ('112',), ('up', 'up'), 0, 1, meta))
             out.append(('direct', ('112',), ('up', 'up'), 0, 1, meta))
+        # polls that fail, after 0-2 answered / unanswered polls
+        out += fault_cases(fault_scripts(['111', '112', '1-2', 's'], 2), st, (1,))
+        out += [('ddl', seq, s, 0.5, 2, True, CCT_DEFAULT) for seq in fault_scripts(['112'], 2) for s in st]
+        # an unanswered poll that is followed by further polls (poll timeout shorter than the budget)
+        for seq in short + list(itertools.product(['111', '112', 's'], repeat=3)):
+            if 's' not in seq:
+                continue
+            for s in st:
+                out.append(('direct', seq, s, 0.7, 1, False, CCT_SHORT))
+                for meta in (False, True):
+                    out.append(('ddl', seq, s, 0.7, 1, meta, CCT_SHORT))
     else:
         letters = all_letters()
         seqs = [s for n in (1, 2, 3) for s in itertools.product(letters, repeat=n)]
@@ -256,7 +336,16 @@ def cases(ctx):
         for meta in (False, True):
             out.append(('ddl', ('112',), ('up', 'up'), 0, 1, meta))
             out.append(('direct', ('112',), ('up', 'up'), 0, 1, meta))
-    return out
+        out += fault_cases(fault_scripts(QUICK_LETTERS, 2), st, (1, 2))
+        for seq in short:
+            if 's' not in seq:
+                continue
+            for s in st:
+                out.append(('direct', seq, s, 0.7, 1, False, CCT_SHORT))
+                for meta in (False, True):
+                    for ph in (1, 2):
+                        out.append(('ddl', seq, s, 0.7, ph, meta, CCT_SHORT))
+    return [c if len(c) == 7 else c + (CCT_DEFAULT,) for c in out]
 
 
 def run(ctx):
@@ -280,7 +369,8 @@ def run(ctx):
 
 
 def replay(ctx, data):
-    part = run_chunk([(data['mode'], tuple(data['seq']), tuple(data['states']), data['budget'], data['poll_host'], data['meta'])])
+    part = run_chunk([(data['mode'], tuple(data['seq']), tuple(data['states']), data['budget'], data['poll_host'], data['meta'],
+                      data.get('cct', CCT_DEFAULT))])
     for fp, what, _ in part.violations:
         print(fp, '::', what)
     return bool(part.violations)
